@@ -36,7 +36,7 @@ ASSUMPTIONS = [
     'the last worker of the pool is never faulted and the retry budget is not exhausted; if the library nevertheless reports all workers timed out although the transport saw that worker healthy, the case is inconclusive (load), never a violation',
     'non-retriable application errors must surface as an exception whose text names the failing task',
 ]
-REQUIRED = ['as_completed_cases', 'run_cases', 'sharded_cases', 'late_death_cases', 'no_deadline_cases', 'faults_hit',
+REQUIRED = ['as_completed_cases', 'run_cases', 'sharded_cases', 'late_death_cases', 'no_deadline_cases', 'faults_hit', 'rejoin_cases', 'rejoin_phase2_cases',
             'tasks_delivered', 'fault_free_cases', 'app_error_cases', 'release_checks']
 CHUNK_TIMEOUT_S = {'quick': 500, 'thorough': 3400}
 FAULT_KINDS = ['lost_request', 'lost_reply', 'slow', 'die_before', 'die_after', 'restart']
@@ -336,22 +336,147 @@ def run_sharded_late_death(ctx, runner, case):
     runner.cwork.stop_servers(servers, join_s=0.5)
 
 
+def run_sharded_rejoin(ctx, runner, case):
+  """A worker dies while its shard is in flight, with no call deadline: it is only
+  noticed through its stale heartbeat and its task is cancelled.  It rejoins
+  later.  Afterwards every other worker is taken away and a second pipeline runs
+  through the same pool: the rejoined worker is the one usable worker."""
+  import threading
+  from vlib import c16lib
+  from ml_metrics._src.chainables import orchestrate
+  W = case['W']
+  servers, addrs, raw, pool = runner.make_pool(W, 1, case['ibs'], call_timeout=0)
+  raw_list = [raw[a] for a in addrs]
+  sim = runner.courier.sim
+  spec = {'n': case['n'], 'rec': case['rec'], 'ops': [['affine', {'a': 3, 'b': 1}]],
+          'agg': 'sum', 'fused': True, 'num_threads': 0}
+  spec2 = dict(spec, n=case['n2'])
+  victim = raw_list[case['victim']]
+  try:
+    pool.wait_until_alive(deadline_secs=HB_THRESHOLD, minimum_num_workers=W)
+    hits = runner.install_plan(raw_list, [[case['victim'], case['idx'], 'die_before']], servers)
+    rq, outs = queue.SimpleQueue(), []
+
+    def go():
+      for b in orchestrate.sharded_pipelines_as_iterator(
+          pool, c16lib.define_pipeline, spec, num_shards=case['K'], result_queue=rq):
+        outs.append(b)
+
+    finished, _, exc = runner.cwork.run_with_watchdog(go, 120)
+    runner.clear_plan()
+    aggs = []
+    if finished and exc is None:
+      try:
+        aggs.append(rq.get(timeout=20))
+      except queue.Empty:
+        pass
+      while not rq.empty():
+        aggs.append(rq.get_nowait())
+    ref_outs, ref_agg = c16lib.reference(spec)
+    res = {'finished': finished, 'exc': exc, 'outs': outs, 'aggs': aggs,
+           'ref_outs': ref_outs, 'ref_agg': ref_agg, 'hits': hits,
+           'acquired': len(pool.acquired_workers),
+           'locked': sum(1 for w in pool.all_workers if w.is_locked()),
+           'last_healthy': True, 'phase2': None}
+    if not (finished and exc is None and hits):
+      return res
+    # The victim's process comes back under the same address (state lost).
+    by_raw = {s._server.address: s for s in servers}  # pylint: disable=protected-access
+    srv = by_raw.get(victim)
+    if srv is not None:
+      srv._generator = None  # pylint: disable=protected-access
+      srv._enqueue_thread = None  # pylint: disable=protected-access
+    sim.revive(victim)
+    vw = [w for w in pool.all_workers if raw.get(w.address) == victim][0]
+    t0 = time.time()
+    while time.time() - t0 < 3 * HB_THRESHOLD / SCALE and not vw.is_alive:
+      time.sleep(0.02)
+    if not vw.is_alive:
+      res['phase2'] = {'rejoined': False}
+      return res
+    for a in raw_list:
+      if a != victim:
+        sim.kill(a)
+    rq2, outs2 = queue.SimpleQueue(), []
+
+    def go2():
+      for b in orchestrate.sharded_pipelines_as_iterator(
+          pool, c16lib.define_pipeline, spec2, num_shards=2, result_queue=rq2):
+        outs2.append(b)
+
+    fin2, _, exc2 = runner.cwork.run_with_watchdog(go2, 6 * HB_THRESHOLD / SCALE + 10)
+    aggs2 = []
+    if fin2 and exc2 is None:
+      try:
+        aggs2.append(rq2.get(timeout=20))
+      except queue.Empty:
+        pass
+    ro2, ra2 = c16lib.reference(spec2)
+    res['phase2'] = {'rejoined': True, 'finished': fin2, 'exc': exc2, 'outs': outs2,
+                     'aggs': aggs2, 'ref_outs': ro2, 'ref_agg': ra2,
+                     'victim_pendings': len(vw.pendings), 'victim_capacity': vw.has_capacity}
+    return res
+  finally:
+    runner.clear_plan()
+    runner.cwork.stop_servers(servers, join_s=0.5)
+
+
+def judge_phase2(ctx, case, res):
+  p2 = res.get('phase2')
+  if not p2:
+    return
+  ctx.count('rejoin_phase2_cases')
+  if not p2['rejoined']:
+    ctx.inconclusive_case('the restarted worker was not seen alive again', case)
+    return
+  from ml_metrics._src.chainables import transform
+  if not p2['finished']:
+    ctx.violation('hang_with_rejoined_worker_usable', case,
+                  {'victim_pendings': p2['victim_pendings'],
+                   'victim_has_capacity': p2['victim_capacity'], 'hits': res['hits']},
+                  mechanism='rejoin:second-run-hangs-although-rejoined-worker-alive')
+    return
+  if p2['exc'] is not None:
+    e = p2['exc']
+    text = f'{type(e).__name__}: {e}'
+    mech = f'rejoin:second-run-raises:{type(e).__name__}'
+    if 'All workers timeout' in text or isinstance(e, _invalid_state()):
+      mech = 'healthy-idle-worker-heartbeat-transiently-stale'
+    ctx.violation('driver_raised', case, {'error': text[:300], 'phase': 2}, mechanism=mech)
+    return
+  want = sorted(repr(list(b)) for b in p2['ref_outs'])
+  got = sorted(set(repr(list(b)) for b in p2['outs']))
+  finals = [a for a in p2['aggs'] if isinstance(a, transform.AggregateResult)]
+  if got != sorted(set(want)) or len(finals) != 1 or finals[0].agg_result != p2['ref_agg']:
+    ctx.violation('second_run_differs', case,
+                  {'missing': [w for w in want if w not in got][:5],
+                   'aggs': repr(p2['aggs'])[:200], 'want_agg': repr(p2['ref_agg'])},
+                  mechanism='rejoin:second-run-differs')
+
+
+def _invalid_state():
+  import concurrent.futures as cf
+  return cf.InvalidStateError
+
+
 def _fault_sig(case):
   if case['driver'] == 'sharded_late_death':
     return 'late_death'
+  if case['driver'] == 'sharded_rejoin':
+    return 'rejoin'
   return '+'.join(sorted({f[2] for f in case['faults']})) or 'none'
 
 
 def judge(ctx, case, res):
   driver = case['driver']
   ctx.count({'as_completed': 'as_completed_cases', 'run': 'run_cases',
-             'sharded': 'sharded_cases',
+             'sharded': 'sharded_cases', 'sharded_rejoin': 'rejoin_cases',
              'sharded_late_death': 'late_death_cases'}[driver])
   hit = len(res['hits'])
   ctx.count('faults_hit', hit)
   if case.get('no_deadline'):
     ctx.count('no_deadline_cases')
-  if not case.get('faults') and case.get('app_error') is None and driver != 'sharded_late_death':
+  if not case.get('faults') and case.get('app_error') is None and driver not in ('sharded_late_death', 'sharded_rejoin'):
     ctx.count('fault_free_cases')
   ctx.case((driver, {k: v for k, v in case.items()}), hit >= 1)
   sig = _fault_sig(case)
@@ -471,9 +596,13 @@ def run_one(ctx, runner, case):
     res = run_pool_run(ctx, runner, case)
   elif case['driver'] == 'sharded_late_death':
     res = run_sharded_late_death(ctx, runner, case)
+  elif case['driver'] == 'sharded_rejoin':
+    res = run_sharded_rejoin(ctx, runner, case)
   else:
     res = run_sharded(ctx, runner, case)
   judge(ctx, case, res)
+  if case['driver'] == 'sharded_rejoin':
+    judge_phase2(ctx, case, res)
 
 
 def run_chunk(ctx, spec):
@@ -497,6 +626,13 @@ def run_chunk(ctx, spec):
     cases.append({'driver': 'sharded_late_death', 'W': W, 'par': 1, 'faults': [],
                   'victim': rng.randrange(W - 1), 'n': rng.choice([6, 12, 20]),
                   'rec': rng.randint(1, 3), 'ibs': rng.randint(1, 3)})
+  if spec['tier'] != 'quick' or spec['chunk'] % 2 == 0:
+    W = rng.randint(2, 3)
+    cases.append({'driver': 'sharded_rejoin', 'W': W, 'par': 1, 'faults': [],
+                  'no_deadline': True, 'victim': rng.randrange(W - 1),
+                  'idx': rng.randint(1, 3), 'K': W + rng.randint(0, 2),
+                  'n': rng.choice([12, 20, 30]), 'n2': rng.choice([4, 9]),
+                  'rec': rng.randint(1, 2), 'ibs': rng.randint(1, 2)})
   for case in cases:
     run_one(ctx, runner, case)
   ctx.notes['scale'] = SCALE
